@@ -11,6 +11,39 @@ vectors), `t`, the `n·d` entries of the linearisation point (coefficient-major)
 namespace Pdq.Drv
 open Pdq
 
+/-- a *program spec* on the wire, expanded to the flat list of output programs and the number of
+coefficients it reads:
+`res K m nout e…`   — a residual of `K` coefficients with `nout` outputs, jet-lifted by `m`
+                      (`[g, Dg, …, D^m g]`, `Lin.liftExprs`; `C11.lift_spec`);
+`ode K m e…(d)`     — `residual_from_ode` of the ODE `u^(K) = f` jet-lifted by `m`
+                      (`Lin.residualFromOde (liftIndices K m) (liftExprs m f)`);
+`stack np spec…`    — `residual_from_stack`. -/
+def pProgram (d : Nat) : Nat → P (List (Expr Q) × Nat)
+  | 0 => throw "program too deep"
+  | fuel + 1 => do
+    let tk ← tok
+    match tk with
+    | "res" => do
+      let k ← pNat; let m ← pNat; let nout ← pNat
+      let gs ← pExprs nout
+      checkWf gs k d
+      pure ((Lin.liftExprs m gs).flatten, k + m)
+    | "ode" => do
+      let k ← pNat; let m ← pNat
+      let f ← pExprs d
+      checkWf f k d
+      pure ((Lin.residualFromOde (Lin.liftIndices k m) (Lin.liftExprs m f)).flatten, k + m + 1)
+    | "stack" => do
+      let np ← pNat
+      let mut out : List (Expr Q) := []
+      let mut ord := 0
+      for _ in [0:np] do
+        let (p, o) ← pProgram d fuel
+        out := out ++ p
+        ord := max ord o
+      pure (out, ord)
+    | _ => throw s!"bad program token '{tk}'"
+
 def opsLinearize : List (String × Handler) := [
   -- lift: K d liftBy(int) L t coeffs(L*d) ng exprs(ng)  ->  "none" | "some" values
   ("lin_lift", do
@@ -40,35 +73,47 @@ def opsLinearize : List (String × Handler) := [
   ("lin_lift_max", do
     let numT ← pNat; let idx ← pNat; let k ← pNat; pEnd
     pure s!"{Lin.odeLiftMax numT idx} {Lin.residualLiftMax numT k}"),
-  -- dense linearisation: n d t xi(n*d) M exprs(M) -> J (M x n*d) b (M) r (M)
+  -- evaluate a program spec: n d t xi(n*d) spec -> order, values
+  ("lin_eval", do
+    let n ← pNat; let d ← pNat; let t ← pRat
+    let xi ← pCoeffs n d
+    let (rs, ord) ← pProgram d 8
+    pEnd
+    if n < ord then throw "not enough coefficients"
+    pure (s!"{ord} " ++ showList (rs.map (Expr.evalOn xi t)))),
+  -- dense linearisation: n d t xi(n*d) spec -> J (M x n*d) b (M)
   ("lin_dense", do
     let n ← pNat; let d ← pNat; let t ← pRat
     let xi ← pCoeffs n d
-    let m ← pNat
-    let rs ← pExprs m
+    let (rs, ord) ← pProgram d 8
     pEnd
-    checkWf rs n d
+    if n < ord then throw "not enough coefficients"
     let (J, b) := Lin.linDense n d rs xi t
     pure (showMat J ++ " " ++ showVec b)),
   -- block-diagonal: n d m t xi exprs(m*d) -> for j<d: J_j (m x n) b_j (m)
   ("lin_bd", do
-    let n ← pNat; let d ← pNat; let m ← pNat; let t ← pRat
+    let n ← pNat; let d ← pNat; let t ← pRat
     let xi ← pCoeffs n d
-    let rs ← pExprs (m * d)
+    let (rs, ord) ← pProgram d 8
     pEnd
-    checkWf rs n d
+    if n < ord then throw "not enough coefficients"
+    if d = 0 then throw "d = 0"
+    if rs.length % d ≠ 0 then throw "outputs are not (m, d)-shaped"
+    let m := rs.length / d
     let parts := (List.range d).map fun j =>
       let (J, b) := Lin.linBlockDiag n d m rs xi t j
       showMat J ++ " " ++ showVec b
     pure (" ".intercalate parts)),
   -- isotropic: n d m t xi exprs(m*d) -> H (m x n) B (m x d)
   ("lin_iso", do
-    let n ← pNat; let d ← pNat; let m ← pNat; let t ← pRat
+    let n ← pNat; let d ← pNat; let t ← pRat
     let xi ← pCoeffs n d
-    let rs ← pExprs (m * d)
+    let (rs, ord) ← pProgram d 8
     pEnd
+    if n < ord then throw "not enough coefficients"
     if d = 0 then throw "d = 0"
-    checkWf rs n d
+    if rs.length % d ≠ 0 then throw "outputs are not (m, d)-shaped"
+    let m := rs.length / d
     let (H, B) := Lin.linIso n d m rs xi t
     pure (showMat H ++ " " ++ showMat B)),
   -- TS0: n d p idxs(p) fv(p*d) -> dense H (p*d x n*d), b (p*d); iso H (p x n), B (p x d)
